@@ -435,8 +435,8 @@ class C12(Prop):
         while True:
             mode = rng.randrange(16)
             if rng.random() < 0.12:
-                # correspondence only (no oracle): attributes merged into tags that already have class / style / id
-                # attributes, and combinations of block options - what the property does not spell out, the model does
+                # attributes merged into tags that already have class / style / id attributes, and combinations of block
+                # options: the shape of the merged tag is decided by the correspondence, the block after it by the oracle
                 line = rng.choice(['.c1 c2', '."color:red"', '.c1 #i9 "a:b"', '.#i9 [title="t"]', '.c1 "x:y;" -specials +macros',
                                    '.+skipx', '.-specials +skip', '.-macros -spans c1', '.c1 +container -specials'])
                 target = rng.choice(['<div class="a" title="q">x</div>', '<div style="a:b;" class="k">x</div>', '<p style="a:b">x</p>',
@@ -530,7 +530,14 @@ class C12(Prop):
         mode = case['safeMode']
         a, _, ok1 = run_session(ctx, [{'src': case['with'], 'safeMode': mode, 'reset': True, 'callback': True}], res, case)
         if case.get('merge'):
-            res.count('merge_correspondence_only')
+            # what the merged first tag looks like is left to the correspondence; that the attributes and options are used up by
+            # that one block is the property: the paragraph after it renders as if they had never been there
+            res.count('merge_cases')
+            if a[0][0] == 'ok':
+                res.oracle_checks += 1
+                if not a[0][1].endswith('<p>next <em>para</em></p>'):
+                    res.violation('Block Attributes merged into the attributes of the target block also reach the block after it',
+                                  case, short(a[0][1]))
             return
         if case.get('options'):
             if a[0][0] != 'ok':
@@ -785,6 +792,24 @@ class C11(Prop):
                     lines_a.append('%s %s end' % (w1, inv)); lines_b.append('%s %s end' % (w1, val_of()))
                     kinds.add('redefined-between')
             mode = rng.choice([0, 0, 8, 9, 12])
+            if rng.random() < 0.2:
+                # the same span-rendered argument before and after a definition that changes what it renders to: the
+                # invocation is its substituted text both times (nothing rendered earlier may be reused)
+                arg = rng.choice(['a *brave* word', '_x_ y', '`c` d', '**s** t', 'teh end'])
+                d = "{mq} = 'say $$1 now'"
+                lines_a.append(d); lines_b.append(d)
+                w1 = plain(rng, 1, 2)
+                switch = rng.choice(["* = '<b>|</b>'", "_ = '<u>|</u>'", "` = '<tt>|</tt>'", "** = '<i>|</i>'", "/\\bteh\\b/ = 'the'",
+                                     "/brave/ = 'BRAVE'"])
+                for part in (None, switch, None):
+                    if part is None:
+                        lines_a.append('%s {mq|%s} end' % (w1, arg)); lines_b.append('%s say %s now end' % (w1, arg))
+                    else:
+                        lines_a.append(part); lines_b.append(part)
+                if rng.random() < 0.5:
+                    lines_a.append('- item {mq|%s}' % arg); lines_b.append('- item say %s now' % arg)
+                kinds.add('rendered-argument-redefined-between')
+                mode = 0
             yield {'a': '\n\n'.join(lines_a), 'b': '\n\n'.join(lines_b), 'safeMode': mode, 'kinds': sorted(kinds), 'literal': literal}
 
     def execute(self, case, ctx, res):
@@ -940,6 +965,10 @@ class C17(Prop):
 
 
 # ---------------------------------------------------------------------------------------------
+DYNAMIC_DOCS = ['.k "a:b" #i [t="1"]\n<div class="c" style="d:e" id="own">x</div>', '.k "a:b" #i\npara *a* `b` http://u.v/ <x@y.z> {m|1}',
+                "{m} = '$1 $$2'\n{m|a|b} {m?} = 'x'\n{m=a.*} {m!b}", '.k\n# Head\n\n.#j\n- a\n\n.+skip -macros\n``\ncode\n``', "/a(b)/i = '$1'\n* = '<b>|</b>'\n|code| = '<pre>|</pre>'",
+                '<image:a|b> <<#x>> [c](d) ![e](f) ^[g](h) <a.b/c|d> &amp; \\\n', '.safeMode = \'1\'\n.htmlReplacement = \'x\'', 'term:: def\n\n  ind\n> q\n""\nquote\n""']
+
 PUMP_UNITS = ['<a|', '<a@b|', '<image:a|', '[a](', '![a](', '^[a](', '*a ', '_a ', '`a ', '~~a ', '**a ', '{a|', '{a', 'http://', '&a', '<a ',
               '<!--', 'a::', '<<#a', '\\', '\\*', '.a', ' ', '\t', 'a@', '<', '# ', '"', "'", '[', '](', '- ', '. ', 'a_', '$1', '|', '::', '#a ',
               '>', '<b', '<b ', '-', '+', 'x ', '."', '.[', '.#', '<a|b', '&#', 'a\\\n']
@@ -977,12 +1006,15 @@ class C02(Prop):
         """pumped inputs derived from the parse trees of the patterns found in the current source (tools/harness/pump.py)"""
         from . import pump
         path = os.path.join(os.path.dirname(os.path.abspath(__file__)), '..', '..', 'lean', 'RimuModel', 'Generated', 'sites.json')
-        if not os.path.exists(path):
-            return [], []
-        entries = pump.pool(pump.load_sites(path))
+        sites = pump.load_sites(path) if os.path.exists(path) else []
+        known = set((pat, fl & (re.I | re.M | re.S)) for _k, pat, fl in sites)
+        # what the running implementation hands to `re` (patterns composed at run time, or kept where the translator does not look)
+        docs = gen.corpus(ctx.repo)[:150] + DYNAMIC_DOCS
+        dyn = [d for d in pump.dynamic_sites(ctx.repo, docs) if (d[1], d[2] & (re.I | re.M | re.S)) not in known]
+        entries = pump.pool(sites + dyn)
         flagged, timed = pump.prescreen(entries)
-        self.prescreen_stats = {'patterns': len(set(e[0] for e in entries)), 'pumped_strings': len(entries), 'timed': timed,
-                                'flagged': len(flagged)}
+        self.prescreen_stats = {'patterns': len(set(e[0] for e in entries)), 'patterns_seen_only_at_run_time': len(dyn),
+                                'pumped_strings': len(entries), 'timed': timed, 'flagged': len(flagged)}
         return entries, flagged
 
     def cases(self, ctx):
@@ -991,10 +1023,18 @@ class C02(Prop):
         entries, flagged = self.derived(ctx)
         from . import pump
         for f in flagged:
-            # direct search on this pattern grows faster than quadratically: does a render reach it?
+            # direct search on this pattern grows faster than quadratically: does a render reach it?  As source text, and as the
+            # first tag of an HTML block that pending Block Attributes are injected into (patterns applied to a tag, not to source)
+            word = pump.build(f['prefix'], f['unit'], f['suffix'], size)
+            n = f.get('n') or 64
+            short_word = pump.build(f['prefix'], f['unit'], f['suffix'], 4 * n)
             for mode in (1, 5):
-                yield {'kind': 'pump', 'src': pump.build(f['prefix'], f['unit'], f['suffix'], size) + '\nnext line', 'safeMode': mode,
-                       'size': size, 'derived_from': f['site'], 'prescreen': f}
+                yield {'kind': 'pump', 'src': word + '\nnext line', 'safeMode': mode, 'size': size, 'derived_from': f['site'], 'prescreen': f}
+            for w in (word, short_word):
+                inner = w[1:] if w.startswith('<') else w
+                for lead in ('.k "a:b" #i\n', '.k\n', '."a:b"\n'):
+                    yield {'kind': 'pump', 'src': lead + '<div ' + inner.replace('>', '').replace('\n', ' ') + '>x</div>\n\nnext', 'safeMode': 1,
+                           'size': len(w), 'derived_from': f['site'], 'prescreen': f, 'embedding': 'first tag of an HTML block'}
         while True:
             k = rng.random()
             if k < 0.25 and entries:
